@@ -24,12 +24,13 @@ type C14Case struct {
 	Comp   proto.CompSpec `json:"comp"`
 	Ignore bool           `json:"ignore_case"`
 	Vars   [][2]string    `json:"vars,omitempty"`
-	Keys   []string       `json:"keys"` // Go-quoted
+	Keys   []string       `json:"keys"`            // Go-quoted
+	Keys2  []string       `json:"keys2,omitempty"` // second completion, at the start of the line the first one left
 	Cols   int            `json:"cols"`
 	Rows   int            `json:"rows"`
 }
 
-var c14MenuKeys = []string{"\\t", "\\t", "\\t", "\\x1b[Z", "\\x1b[A", "\\x1b[B", "\\x1b[C", "\\x1b[D", "\\x0e", "\\x10", "\\x1b[1;5A", "\\x1b[1;5B", "\\x00", "\\x1b", "\\r", "\\x03"}
+var c14MenuKeys = []string{"\\t", "\\t", "\\t", "\\x1b[Z", "\\x1b[A", "\\x1b[B", "\\x1b[C", "\\x1b[D", "\\x0e", "\\x10", "\\x1b[1;5A", "\\x1b[1;5B", "\\x00", "\\x1b", "\\r", "\\x03", "\\x03", "\\x06", "\\x06", "f", "o", "a"}
 
 func genC14(t *rapid.T) *C14Case {
 	c := &C14Case{}
@@ -64,6 +65,10 @@ func genC14(t *rapid.T) *C14Case {
 	}
 
 	c.Keys = append([]string{"\\t"}, rapid.SliceOfN(rapid.SampledFrom(c14MenuKeys), 0, 11).Draw(t, "keys")...)
+	if rapid.IntRange(0, 2).Draw(t, "second") == 0 {
+		c.Keys2 = append([]string{"\\t"}, rapid.SliceOfN(rapid.SampledFrom(c14MenuKeys), 0, 6).Draw(t, "keys2")...)
+	}
+
 	c.Cols = rapid.SampledFrom([]int{20, 40, 80, 120}).Draw(t, "cols")
 	c.Rows = rapid.SampledFrom([]int{6, 12, 24}).Draw(t, "rows")
 
@@ -88,7 +93,7 @@ func runC14(h *Harness, child *rig.Child, c *C14Case) (*Failure, bool) {
 
 	comp := c.Comp
 	spec := &proto.Spec{Calls: 1, Inputrc: renderVars("emacs", vars), LogCmds: true, Prompt: &proto.PromptSpec{Primary: "> "}, Completer: &comp,
-		Binds: e.bindNames([]string{"backward-char"}, "emacs")}
+		Binds: e.bindNames([]string{"backward-char", "beginning-of-line"}, "emacs")}
 
 	d := openDrive(h, child, spec, rig.SessionOpts{Cols: c.Cols, Rows: c.Rows})
 	defer d.close()
@@ -117,6 +122,41 @@ func runC14(h *Harness, child *rig.Child, c *C14Case) (*Failure, bool) {
 		return &Failure{Clause: "infra", Msg: fmt.Sprintf("typed %q, buffer %q", line, orig.Line), Infra: true}, false
 	}
 
+	f, nontrivial, goOn := c14Round(c, d, line, c.Keys)
+	if f != nil || !goOn || len(c.Keys2) == 0 {
+		return f, nontrivial
+	}
+
+	// a second completion in the same call, with the cursor at the start of
+	// whatever the first one left (state kept from the first must not leak)
+	last := d.parks[len(d.parks)-1]
+	if d.st.Kind != "park" || last.Local != "" || last.Kind != "main" {
+		return nil, nontrivial
+	}
+
+	d.send([]byte(e.key("beginning-of-line")))
+
+	if d.fail != nil || d.st.Kind != "park" {
+		return d.fail, nontrivial
+	}
+
+	last = d.parks[len(d.parks)-1]
+	if last.Pos != 0 || last.Local != "" {
+		return nil, nontrivial
+	}
+
+	f, nt2, _ := c14Round(c, d, last.Line, c.Keys2)
+	if f != nil {
+		f.Msg = "second completion in the call: " + f.Msg
+	}
+
+	return f, nontrivial || nt2
+}
+
+// c14Round plays the keys of one completion from the current wait (buffer line)
+// and judges every buffer on the way. goOn: the call is still open, at rest.
+func c14Round(c *C14Case, d *drive, line string, keys []string) (*Failure, bool, bool) {
+	orig := d.parks[len(d.parks)-1]
 	cur := orig.Pos
 	lr := []rune(line)
 
@@ -172,8 +212,56 @@ func runC14(h *Harness, child *rig.Child, c *C14Case) (*Failure, bool) {
 
 		// with no menu open only TAB belongs to the clause: any other key is plain
 		// editing (cursor keys move the reference point, ESC starts a meta sequence)
-		if before.Local != "menu-select" && string(b) != "\t" {
-			return nil, nontrivial
+		if before.Local != "menu-select" && before.Local != "isearch" && string(b) != "\t" {
+			return nil, nontrivial, false
+		}
+
+		// the menu's incremental search (C-f): the minibuffer takes the keys and
+		// the buffer is not observable; what is judged is how it ends
+		if before.Local == "isearch" {
+			if s := string(b); s != "\x03" && s != "\t" && len(s) == 1 && s[0] < 0x20 || s == "\x1b" || len(s) > 1 {
+				return nil, nontrivial, false
+			}
+
+			done = append(done, k)
+			ev := d.send(b)
+
+			if d.fail != nil {
+				d.fail.Msg = fmt.Sprintf("line %q, keys %v: %s", line, done, d.fail.Msg)
+				return d.fail, nontrivial, false
+			}
+
+			ctx := fmt.Sprintf("line %q (cursor %d, matching candidates %q), keys %v", line, cur, matching, done)
+
+			switch {
+			case ev == nil:
+				return failf("abort-returns", "c14:abort-returns", "%s: the key ended the call while the menu search was open: %s", ctx, d.st), true, false
+			case ev.Local == "isearch":
+				continue
+			case string(b) == "\x03" && ev.Local == "":
+				nontrivial = true
+
+				if ev.Line != line || ev.Pos != cur {
+					return failf("abort-restores", "c14:abort-restores:menu-isearch:"+c.Comp.Mode, "%s: C-c in the menu's incremental search left buffer %q cursor %d, the original is %q cursor %d", ctx, ev.Line, ev.Pos, line, cur), true, false
+				}
+
+				continue
+			case ev.Local == "menu-select":
+				if !valid(ev.Line) {
+					return failf("locality", c14sig(c, lr, cur), "%s: buffer %q is neither the original nor B + candidate + A", ctx, ev.Line), true, false
+				}
+
+				continue
+			}
+
+			return nil, nontrivial, false
+		}
+
+		// a printable key with the menu open accepts the candidate and inserts
+		// itself: plain editing from there on
+		if len(b) == 1 && b[0] >= 0x20 && b[0] < 0x7f {
+			d.send(b)
+			return d.fail, nontrivial, false
 		}
 
 		done = append(done, k)
@@ -181,7 +269,7 @@ func runC14(h *Harness, child *rig.Child, c *C14Case) (*Failure, bool) {
 
 		if d.fail != nil {
 			d.fail.Msg = fmt.Sprintf("line %q cursor %d, keys %v: %s", line, cur, done, d.fail.Msg)
-			return d.fail, nontrivial
+			return d.fail, nontrivial, false
 		}
 
 		ctx := fmt.Sprintf("line %q (B=%q P=%q A=%q, cursor %d, completer mode %s, ignore-case %v, matching candidates %q), keys %v", line, B, P, A, cur, c.Comp.Mode, c.Ignore, matching, done)
@@ -192,11 +280,11 @@ func runC14(h *Harness, child *rig.Child, c *C14Case) (*Failure, bool) {
 				nontrivial = true
 
 				if ev == nil {
-					return failf("abort-returns", "c14:abort-returns", "%s: C-c with an open completion menu ended the call: %s", ctx, d.st), true
+					return failf("abort-returns", "c14:abort-returns", "%s: C-c with an open completion menu ended the call: %s", ctx, d.st), true, false
 				}
 
 				if ev.Line != line || ev.Pos != cur {
-					return failf("abort-restores", "c14:abort-restores", "%s: C-c with an open completion menu left buffer %q cursor %d, the original is %q cursor %d", ctx, ev.Line, ev.Pos, line, cur), true
+					return failf("abort-restores", "c14:abort-restores", "%s: C-c with an open completion menu left buffer %q cursor %d, the original is %q cursor %d", ctx, ev.Line, ev.Pos, line, cur), true, false
 				}
 
 				menuOpen = false
@@ -204,26 +292,31 @@ func runC14(h *Harness, child *rig.Child, c *C14Case) (*Failure, bool) {
 				continue
 			}
 
-			return nil, nontrivial // plain interrupt: the call returns, nothing more to check
+			return nil, nontrivial, false // plain interrupt: the call returns, nothing more to check
 		}
 
 		if ev == nil {
 			// CR: the returned line obeys the same locality
 			if d.st.Kind == "return" && !valid(d.st.Ev.Line) {
-				return failf("locality", c14sig(c, lr, cur), "%s: accepted line %q is neither the original nor B + candidate + A", ctx, d.st.Ev.Line), true
+				return failf("locality", c14sig(c, lr, cur), "%s: accepted line %q is neither the original nor B + candidate + A", ctx, d.st.Ev.Line), true, false
 			}
 
-			return nil, nontrivial
+			return nil, nontrivial, false
 		}
 
 		// C-@ accepts and completes again on the new line, and a cursor key with no
 		// menu open moves the cursor: the reference point of the clause moves
 		if string(b) == "\x00" || (ev.Local != "menu-select" && !wasOpen && ev.Line == line && ev.Pos != cur) {
-			return nil, nontrivial
+			return nil, nontrivial, ev.Local == "" && ev.Kind == "main"
+		}
+
+		// entering the menu's incremental search: the minibuffer hides the buffer
+		if ev.Local == "isearch" {
+			continue
 		}
 
 		if !valid(ev.Line) {
-			return failf("locality", c14sig(c, lr, cur), "%s: buffer %q is neither the original nor B + candidate + A (menu %v)", ctx, ev.Line, ev.Local), true
+			return failf("locality", c14sig(c, lr, cur), "%s: buffer %q is neither the original nor B + candidate + A (menu %v)", ctx, ev.Line, ev.Local), true, false
 		}
 
 		menuOpen = ev.Local == "menu-select"
@@ -231,18 +324,20 @@ func runC14(h *Harness, child *rig.Child, c *C14Case) (*Failure, bool) {
 		// in emacs a lone ESC is the start of a meta sequence: what follows is no
 		// longer a menu key
 		if string(b) == "\x1b" {
-			return nil, nontrivial
+			return nil, nontrivial, false
 		}
 
 		// C-@ accepts and completes again on the new line: the reference point moves
 		if string(b) == "\x00" || (!menuOpen && ev.Line != line) {
-			return nil, nontrivial
+			return nil, nontrivial, false
 		}
 	}
 
 	_ = menuOpen
 
-	return nil, nontrivial
+	last := d.parks[len(d.parks)-1]
+
+	return nil, nontrivial, d.st.Kind == "park" && last.Local == "" && last.Kind == "main"
 }
 
 func c14sig(c *C14Case, lr []rune, cur int) string {
